@@ -2,7 +2,6 @@ use crate::streaming::batching::message_batch::{RetainedMessageBatch, RETAINED_B
 use flume::{unbounded, Receiver};
 use iggy::{error::IggyError, utils::duration::IggyDuration};
 use std::{
-    io::IoSlice,
     sync::{
         atomic::{AtomicU64, Ordering},
         Arc,
@@ -223,16 +222,20 @@ impl PersisterTask {
     ) -> Result<u64, IggyError> {
         let header = batch_to_write.header_as_bytes();
         let batch_bytes = batch_to_write.bytes;
-        let slices = [IoSlice::new(&header), IoSlice::new(&batch_bytes)];
         let bytes_written = RETAINED_BATCH_HEADER_LEN + batch_bytes.len() as u64;
 
         let mut attempts = 0;
         loop {
-            let written = match file.write_vectored(&slices).await {
+            // A single write call may take only a part of the data (tokio::fs::File buffers at most
+            // 2 MiB per call): write_all keeps going until the whole batch has been handed over.
+            let mut written = file.write_all(&header).await;
+            if written.is_ok() {
+                written = file.write_all(&batch_bytes).await;
+            }
+            if written.is_ok() {
                 // tokio::fs::File completes a write in the background; wait until it reached the file.
-                Ok(_) => file.flush().await,
-                Err(e) => Err(e),
-            };
+                written = file.flush().await;
+            }
             match written {
                 Ok(_) => {
                     #[cfg(feature = "iggy_verif")]
